@@ -15,13 +15,13 @@
                          (K35: the last 719468 values of time_point<days,int64>; days + 719468 overflows) *)
 From BS Require Import Base ChronoSpec ChronoModel ChronoArith ChronoDecimal ChronoSweep ChronoCalendar ChronoYear
   ChronoSafe ChronoSafeAdd ChronoText ChronoTp ChronoTpParse ChronoTpRt ChronoTs ChronoRefute
-  ChronoDur ChronoDurPrint ChronoDurParse ChronoDurRt.
+  ChronoDur ChronoDurPrint ChronoDurParse ChronoDurRt ChronoProps.
 Local Open Scope Z_scope.
 
 (* ---- calendar: anchor + successor law over all of Z (Hinnant's civil_from_days, truncating division) ---- *)
 Theorem T_C14_civil :
   civil_from_days 0 = (1970, 1, 1) /\ forall z, civil_from_days (z + 1) = next_day (civil_from_days z).
-Proof. exact (conj civil_epoch civil_succ). Qed.
+Proof. exact c14_civil. Qed.
 Print Assumptions T_C14_civil.
 
 Theorem T_C14_civil_valid : forall z, valid_date (civil_from_days z).
@@ -32,7 +32,7 @@ Print Assumptions T_C14_civil_valid.
 Theorem T_C14_days :
   (forall y m d, valid_date (y, m, d) -> civil_from_days (days_from_civil y m d) = (y, m, d)) /\
   (forall z, let '(y, m, d) := civil_from_days z in days_from_civil y m d = z).
-Proof. exact (conj civil_of_days_from_civil days_of_civil_from_days). Qed.
+Proof. exact c14_days. Qed.
 Print Assumptions T_C14_days.
 
 (* the specification pins the function: civil_from_days is THE day numbering of the leap-rule calendar,
@@ -40,14 +40,11 @@ Print Assumptions T_C14_days.
 Theorem T_C14_calendar_unique :
   is_calendar civil_from_days /\ (forall f, is_calendar f -> forall z, f z = civil_from_days z) /\
   (forall y m d, valid_date (y, m, d) -> days_from_civil y m d = days_of_civil (y, m, d)).
-Proof.
-  split; [exact civil_is_calendar|]. split; [|exact days_from_civil_spec].
-  intros f Hf z. exact (calendar_unique f civil_from_days Hf civil_is_calendar z).
-Qed.
+Proof. exact c14_calendar_unique. Qed.
 Print Assumptions T_C14_calendar_unique.
 
 Example T_C14_civil_example : civil_from_days 19782 = (2024, 2, 29) /\ civil_from_days (-719468) = (0, 3, 1).
-Proof. split; vm_compute; reflexivity. Qed.
+Proof. exact c14_civil_example. Qed.
 Print Assumptions T_C14_civil_example.
 
 (* ---- the date-time a count denotes: valid, and denotes exactly t ticks ---- *)
@@ -63,10 +60,7 @@ Print Assumptions T_C14_spec_datetime.
       Still FALSE on K35: ---- *)
 Theorem T_C14_print_refuted : exists P R t, c14_rep P R /\ fits R t = true /\
   tp_print P R t <> Ok (iso_text P (spec_datetime P t)).
-Proof.
-  exists Pd, I64, 9223372036854775807. split; [left; reflexivity|]. split; [reflexivity|].
-  destruct w_K35 as (H & _). rewrite H. discriminate.
-Qed.
+Proof. exact c14_print_refuted. Qed.
 Print Assumptions T_C14_print_refuted.
 
 Theorem T_C14_print_outside : forall P R t, c14_rep P R -> fits R t = true -> rt_defect P R t = false ->
@@ -82,16 +76,16 @@ Print Assumptions T_C14_defect_class.
 Example T_C14_print_example :
   rt_defect Pms I64 1689374691925 = false /\
   tp_print Pms I64 1689374691925 = Ok [50;48;50;51;45;48;55;45;49;52;84;50;50;58;52;52;58;53;49;46;57;50;53;90]%N.
-Proof. split; vm_compute; reflexivity. Qed.
+Proof. exact c14_print_example. Qed.
 Print Assumptions T_C14_print_example.
 
-(* regression: the inputs of the repaired defects F30, F31, BUF (K30, K32, K33, K34) *)
+(* regression: the inputs of the repaired findings K30, K32, K33, K34 *)
 Example T_C14_print_repaired :
-  tp_print Pns I64 (-9223372036854775808) = Ok text_F30 /\
+  tp_print Pns I64 (-9223372036854775808) = Ok text_K30 /\
   tp_print Ps I64 (-62198755200) = Ok [45;48;48;48;49;45;48;49;45;48;49;84;48;48;58;48;48;58;48;48;90]%N /\
   tp_print Ph I64 9223372036854775807 = Ok [43;49;48;53;50;49;57;55;50;56;56;54;53;56;57;48;57;45;49;48;45;49;48;84;48;55;58;48;48;58;48;48;90]%N /\
   tp_print Pd I64 9223372036854000000 = Ok [43;50;53;50;53;50;55;51;52;57;50;55;55;54;54;52;48;48;45;48;54;45;50;53;84;48;48;58;48;48;58;48;48;90]%N.
-Proof. destruct r_F30 as [H1 _]. destruct r_BUF as [H3 H4]. exact (conj H1 (conj r_F31 (conj H3 H4))). Qed.
+Proof. exact c14_print_repaired. Qed.
 Print Assumptions T_C14_print_repaired.
 
 (* ---- T_C14_parse_print, full strength:
@@ -99,10 +93,7 @@ Print Assumptions T_C14_print_repaired.
       still FALSE on K35 (nothing is printed there): ---- *)
 Theorem T_C14_parse_print_refuted : exists P R t, c14_rep P R /\ fits R t = true /\
   ~ (exists text, tp_print P R t = Ok text /\ tp_parse P R text = Ok t).
-Proof.
-  exists Pd, I64, 9223372036854775807. split; [left; reflexivity|]. split; [reflexivity|].
-  intros (text & H & _). destruct w_K35 as (H' & _). rewrite H' in H. discriminate.
-Qed.
+Proof. exact c14_parse_print_refuted. Qed.
 Print Assumptions T_C14_parse_print_refuted.
 
 Theorem T_C14_parse_print_outside : forall P R t, c14_rep P R -> fits R t = true -> rt_defect P R t = false ->
@@ -110,8 +101,8 @@ Theorem T_C14_parse_print_outside : forall P R t, c14_rep P R -> fits R t = true
 Proof. exact tp_roundtrip. Qed.
 Print Assumptions T_C14_parse_print_outside.
 
-Example T_C14_parse_repaired : tp_parse Pns I64 text_F30 = Ok (-9223372036854775808).
-Proof. exact (proj2 r_F30). Qed.
+Example T_C14_parse_repaired : tp_parse Pns I64 text_K30 = Ok (-9223372036854775808).
+Proof. exact c14_parse_repaired. Qed.
 Print Assumptions T_C14_parse_repaired.
 
 (* ---- T_C14_bin_ts: value -> CBinTimestamp is (floor seconds, nanoseconds in 0..999999999) of the instant,
@@ -123,20 +114,14 @@ Theorem T_C14_bin_ts : forall P R t, rep3 R -> fits R t = true ->
   0 <= snd (ts_of_ns (t * tick_ns P)) <= 999999999 /\
   ts_from_tp P R (fst (ts_of_ns (t * tick_ns P))) (snd (ts_of_ns (t * tick_ns P))) = Ok t /\
   ts_from_dur P R (fst (ts_of_ns (t * tick_ns P))) (snd (ts_of_ns (t * tick_ns P))) = Ok t.
-Proof.
-  intros P R t HR Ht Hs.
-  assert (HR4 : rep4 R) by (destruct HR as [->|[->| ->]]; unfold rep4; auto).
-  split; [apply ts_to_ok; assumption|].
-  split; [pose proof (ts_of_ns_range (t * tick_ns P)) as H; destruct (ts_of_ns (t * tick_ns P)); cbn [snd]; tauto|].
-  apply ts_from_roundtrip; assumption.
-Qed.
+Proof. exact c14_bin_ts. Qed.
 Print Assumptions T_C14_bin_ts.
 
 Example T_C14_bin_ts_example :
   ts_to Pns I64 (-500000000) = Ok (-1, 500000000) /\ ts_from_tp Pns I64 (-1) 500000000 = Ok (-500000000) /\
   ts_to Pns I64 (-9223372036854775808) = Ok (-9223372037, 145224192) /\
   ts_from_dur Pns I64 (-9223372037) 145224192 = Ok (-9223372036854775808).
-Proof. repeat split; vm_compute; reflexivity. Qed.
+Proof. exact c14_bin_ts_example. Qed.
 Print Assumptions T_C14_bin_ts_example.
 
 (* ---- T_C14_duration: every duration of an int64 / int32 representation of every precision prints as an
@@ -167,7 +152,7 @@ Example T_C14_duration_example :
   dur_print Pms I64 (-93784005) = Ok [45;80;49;68;84;50;72;51;77;52;46;48;48;53;83]%N /\ dur_parse Pms I64 [45;80;49;68;84;50;72;51;77;52;46;48;48;53;83]%N = Ok (-93784005) /\
   dur_print Pns I64 (-9223372036854775808) = Ok [45;80;49;48;54;55;53;49;68;84;50;51;72;52;55;77;49;54;46;56;53;52;55;55;53;56;48;56;83]%N /\
   dur_print Pd I32 (-2147483648) = Ok [45;80;50;49;52;55;52;56;51;54;52;56;68]%N /\ dur_print Ps I64 0 = Ok [80;84;48;83]%N.
-Proof. repeat split; vm_compute; reflexivity. Qed.
+Proof. exact c14_duration_example. Qed.
 Print Assumptions T_C14_duration_example.
 
 (* ======================================================================================================
